@@ -133,6 +133,10 @@ def gen_case(rng, cid, tier):
                 table = gen_table(rng, meshes[cur], dof_n[pt], cplx)
             last_table = ((pt, cur), table)
             ops.append({"op": "assembly", "pt": pt, "table": table})
+            if rng.random() < 0.25 and table:
+                # the user modifies the returned matrices in place; the same key is assembled again right after
+                ops[-1]["mutate"] = [rng.choice(["data", "elim", "indices", "indptr", "setdiag", "imul", "sort", None, None]) for _ in range(4)]
+                ops.append({"op": "assembly", "pt": pt, "table": [[g_, [None if x is None else gen_values(rng, len(x), cplx) for x in four]] for g_, four in table]})
         elif r < 0.58:
             ops.append({"op": "clear"})
         elif r < 0.68:
@@ -408,7 +412,7 @@ def run(ctx):
 
 def correspondence(ctx):
     rng = ctx.rng
-    ncases = 180 if ctx.tier == "quick" else 2400
+    ncases = 150 if ctx.tier == "quick" else 2400
     nren = 30 if ctx.tier == "quick" else 300
     cases = [gen_case(rng, i, ctx.tier) for i in range(ncases)]
     for c in cases:
@@ -469,6 +473,9 @@ def correspondence(ctx):
             key = "assembly-not-scatter-add:active-mesh-history"
             what = "Get_K_C_M_F #%d slot %s is not the scatter-add for the active mesh (active mesh %s, expected %s) after %s" % (
                 pf["assembly_index"], pf["slot"], pf.get("active_mesh"), pf.get("expected_mesh"), [o["op"] for o in case["ops"][:pf["op_index"] + 1]])
+        elif pf.get("alias_assembly") or any(o.get("mutate") for o in case["ops"][:pf["op_index"]]):
+            key = "assembly-results-alias-cached-pattern"
+            what += "; the matrices returned by an earlier Assembly() call were modified in place by the user (%s): results of Assembly() share index arrays with each other / with the cached reduction map" % [o.get("mutate") for o in case["ops"][:pf["op_index"] + 1] if o.get("mutate")]
         elif pf.get("contiguous_ok"):
             key = "assembly-not-scatter-add:array-layout"
             lay = case["ops"][pf["op_index"]].get("layouts")
@@ -544,8 +551,8 @@ def correspondence(ctx):
     ren_bad = []
     for base_id, new, perms in ren:
         a, b = results.get(base_id), results.get(new["id"])
-        if not a or not b or a.get("error") or b.get("error"):
-            continue
+        if not a or not b or a.get("error") or b.get("error") or a.get("prop_fail") or b.get("prop_fail"):
+            continue        # a case that already violates the scatter-add predicate is reported under that key
         why = check_renumbering(byid[base_id], new, perms, a, b)
         if why:
             ren_bad.append((new["id"], why))
